@@ -14,7 +14,7 @@ func init() {
 }
 
 func runC44(p *core.Prog, r *core.Report) {
-	r.Explain = "'Eventually' is a liveness statement over epochs, batch sizes and schedules and is not decidable statically. Decided here are structural NECESSARY conditions of progress — each one, if broken, makes some garbage stay forever: (R1) the periodic remover re-arms its timer after every pass on every path and leaves its loop only on the stop signal; the event listener keeps listening after every event (known or unknown type); (R2) a GC pass looks at every bin the metabase returned: the loop over bins is left only by exhaustion (a failing container or object batch is logged, not fatal to the pass), an empty bin of a removed container leads to the container clean-up, a non-empty one to object deletion; (R3) an epoch is recorded as completely processed only when the expired-object scan of that pass collected nothing (otherwise the next pass must scan again), and hitting the batch limit ends the scan with the interrupt sentinel that the iterator maps to success, not with an error; (R4) the expired-object callback and the tombstone deletion run in the same pass that collected them (nothing collected is dropped). Not covered: that repeated passes terminate, fairness between containers under the per-call limits, interaction with locks (C07) — all behavioural."
+	r.Explain = "'Eventually' is a liveness statement over epochs, batch sizes and schedules and is not decidable statically. Decided here are structural NECESSARY conditions of progress — each one, if broken, makes some garbage stay forever: (R1) the periodic remover re-arms its timer after every pass on every path and leaves its loop only on the stop signal; the event listener keeps listening after every event (known or unknown type); (R2) a GC pass looks at every bin the metabase returned: the loop over bins is left only by exhaustion (a failing container or object batch is logged, not fatal to the pass), an empty bin of a removed container leads to the container clean-up, a non-empty one to object deletion; (R3) an epoch is recorded as completely processed only when the expired-object scan of that pass collected nothing (otherwise the next pass must scan again), and hitting the batch limit ends the scan with the interrupt sentinel that the iterator maps to success, not with an error; (R4) the expired-object callback and the tombstone deletion run in the same pass that collected them (nothing collected is dropped). (R5) deleteObjs hands every id whose metadata the metabase removed to the blob storage Delete — no path through that loop skips it; an orphan blob is invisible to every later pass. (R6) the lister agrees with the deleter: deleteMetadata refuses non-physical entries (split / EC parents) while keeping their garbage mark, and DB.delete reports that as success — so the lister must not let such entries occupy batch slots; decided structurally (the value compared with the limit advances only under a test that consults the PHY marker, or only such entries are listed). Not covered: that repeated passes terminate, fairness between containers under the per-call limits, interaction with locks (C07) — all behavioural."
 	sh := "(*pkg/local_object_storage/shard.Shard)."
 	// ---------------- R1 loops keep running
 	r1 := r.Rule("C44.R1", "the remover re-arms its timer after every pass and stops only on the stop signal; the event listener never stops on an event", 3)
@@ -172,6 +172,217 @@ func runC44(p *core.Prog, r *core.Report) {
 			r4.Check(rets == 1, core.FuncName(ce)+"#no-early-return-after-scan", p.InstrPos(from), "after the scan the function runs to its end", "an early return after the scan drops what was collected (e.g. on an iterator error)")
 		}
 	}
+	// ---------------- R5 what the metabase forgets, the blob storage forgets too
+	r5 := r.Rule("C44.R5", "Shard.deleteObjs deletes from blob storage every id the metabase removed: once the metadata is gone no later pass can find the blob", 2)
+	blobDeleteForEveryRemoved(p, r, r5)
+	// ---------------- R6 what is listed can be removed
+	r6 := r.Rule("C44.R6", "lister and deleter agree: entries the metabase refuses to delete while keeping their garbage mark (and reports as success) do not take slots of the garbage batch", 2)
+	listerAgreesWithDeleter(p, r, r6)
+}
+
+// phyMarkerLookup: c is getObjAttribute(..., FilterPhysical).
+func phyMarkerLookup(c ssa.CallInstruction) bool {
+	if core.CalleeName(c) != mb+"getObjAttribute" || len(c.Common().Args) != 3 {
+		return false
+	}
+	k, ok := c.Common().Args[2].(*ssa.Const)
+	return ok && k.Value != nil && strings.Contains(k.Value.ExactString(), "$Object:PHY")
+}
+
+// consultsPhyMarker: fn looks the PHY marker up, directly or through a callee of the same package (depth 2).
+func consultsPhyMarker(fn *ssa.Function, depth int) bool {
+	if fn == nil || fn.Blocks == nil {
+		return false
+	}
+	for _, b := range fn.Blocks {
+		for _, in := range b.Instrs {
+			c, ok := in.(ssa.CallInstruction)
+			if !ok {
+				continue
+			}
+			if phyMarkerLookup(c) {
+				return true
+			}
+			if cal := core.StaticCallee(c); depth > 0 && cal != nil && core.FuncPkg(cal) == core.FuncPkg(fn) && consultsPhyMarker(cal, depth-1) {
+				return true
+			}
+		}
+	}
+	return false
+}
+
+// listerAgreesWithDeleter: see C44.R6.
+func listerAgreesWithDeleter(p *core.Prog, r *core.Report, h *core.RuleH) {
+	del := p.Func(mb + "deleteMetadata")
+	dd := p.Func(mbDB + "delete")
+	lst := p.Func(mb + "listGarbageObjects")
+	if del == nil || dd == nil || lst == nil {
+		r.Fatalf("%s: deleteMetadata / DB.delete / listGarbageObjects not found", h.ID())
+		return
+	}
+	// (1) the refusal: a return of errNonPhy that is not dominated by the removal of the garbage mark
+	var gcBlk *ssa.BasicBlock
+	for _, b := range del.Blocks {
+		for _, in := range b.Instrs {
+			if _, ok := fieldStore(in, cdiff+"GC"); ok {
+				gcBlk = b
+			}
+		}
+	}
+	refusals := 0
+	for _, b := range del.Blocks {
+		ret, ok := b.Instrs[len(b.Instrs)-1].(*ssa.Return)
+		if !ok || len(ret.Results) != 2 {
+			continue
+		}
+		u, isU := ret.Results[1].(*ssa.UnOp)
+		if !isU {
+			continue
+		}
+		if g, isG := u.X.(*ssa.Global); !isG || g.Name() != "errNonPhy" {
+			continue
+		}
+		if gcBlk != nil && gcBlk.Dominates(b) {
+			continue // the mark is gone: the entry leaves the listing
+		}
+		if gcBlk != nil && reaches(gcBlk, b) {
+			continue
+		}
+		refusals++
+	}
+	swallowed := len(core.CallSites([]*ssa.Function{dd}, func(s core.Site) bool {
+		return s.Name == "errors.Is" && core.ErrTargetName(s.Call.Common().Args[1]) == mb+"errNonPhy"
+	})) > 0
+	if refusals == 0 || !swallowed {
+		h.OKTrivial(core.FuncName(del)+"#mark-keeping-refusal", p.Pos(del.Pos()), "the metabase no longer refuses entries while keeping their mark: nothing for the lister to agree with")
+		return
+	}
+	h.OK(core.FuncName(del)+"#mark-keeping-refusal", p.Pos(del.Pos()), "non-physical entries are refused (reported as success) with their garbage mark kept: the lister must not let them fill the batch")
+	// (2) the lister: what is compared with the limit (the loop body may be a range-over-func closure)
+	fns := append([]*ssa.Function{lst}, lst.AnonFuncs...)
+	resolve := func(v ssa.Value) ssa.Value { // cell behind a (possibly captured) variable
+		for i := 0; i < 4; i++ {
+			switch x := v.(type) {
+			case *ssa.UnOp:
+				if x.Op.String() == "*" {
+					v = x.X
+					continue
+				}
+			case *ssa.FreeVar:
+				if bnd := core.ResolveFreeVar(x); bnd != nil {
+					v = bnd
+					continue
+				}
+			}
+			break
+		}
+		return v
+	}
+	isLimit := func(v ssa.Value) bool { return core.RootParam(lst, resolve(v)) == 3 || core.RootParam(lst, v) == 3 }
+	var limCmp *ssa.BinOp
+	for _, f := range fns {
+		for _, b := range f.Blocks {
+			for _, in := range b.Instrs {
+				bo, ok := in.(*ssa.BinOp)
+				if !ok {
+					continue
+				}
+				switch bo.Op.String() {
+				case ">=", "<", ">", "<=", "==":
+					if isLimit(bo.X) || isLimit(bo.Y) {
+						limCmp = bo
+					}
+				}
+			}
+		}
+	}
+	if limCmp == nil {
+		h.Bad(core.FuncName(lst)+"#limit", p.Pos(lst.Pos()), "the lister no longer compares anything with its limit")
+		return
+	}
+	counted := limCmp.X
+	if isLimit(limCmp.X) {
+		counted = limCmp.Y
+	}
+	// control dependence on a PHY-marker consultation
+	underPhyTest := func(b *ssa.BasicBlock) bool {
+		for _, bb := range b.Parent().Blocks {
+			for _, in := range bb.Instrs {
+				c, ok := in.(*ssa.Call)
+				if !ok {
+					continue
+				}
+				cal := core.StaticCallee(c)
+				if !(phyMarkerLookup(c) || cal != nil && core.FuncPkg(cal) == core.FuncPkg(lst) && consultsPhyMarker(cal, 2)) {
+					continue
+				}
+				conds := []ssa.Value{c}
+				if c.Referrers() != nil {
+					for _, ref := range *c.Referrers() {
+						if v, isV := ref.(ssa.Value); isV {
+							conds = append(conds, v)
+						}
+					}
+				}
+				for _, cv := range conds {
+					if branchDominates(cv, true, b) || branchDominates(cv, false, b) {
+						return true
+					}
+				}
+			}
+		}
+		return false
+	}
+	badWhy := "non-physical parents pile up at the beginning of the list until a whole batch consists of them — then every pass lists the same ids, removes nothing, and garbage collection of the container stops for good"
+	if lc, isLen := counted.(*ssa.Call); isLen && core.CalleeName(lc) == "builtin.len" {
+		// every listed entry takes a slot: then only removable entries may be listed
+		ok, n := true, 0
+		for _, f := range fns {
+			for _, b := range f.Blocks {
+				for _, in := range b.Instrs {
+					if c, isC := in.(*ssa.Call); isC && core.CalleeName(c) == "builtin.append" {
+						n++
+						if !underPhyTest(b) {
+							ok = false
+						}
+					}
+				}
+			}
+		}
+		h.Check(ok && n > 0, core.FuncName(lst)+"#slots!only-removable", p.InstrPos(limCmp), "entries are listed only after the 'is it stored itself' test", "every listed id takes a slot of the batch, and ids are listed without asking whether the metabase will refuse them: "+badWhy)
+		return
+	}
+	// a separate counter (SSA phi or captured cell): its increments must be under the test
+	cell := resolve(counted)
+	ok, n := true, 0
+	for _, f := range fns {
+		for _, b := range f.Blocks {
+			for _, in := range b.Instrs {
+				var inc *ssa.BinOp
+				switch x := in.(type) {
+				case *ssa.Store:
+					if bo, isB := x.Val.(*ssa.BinOp); isB && resolve(x.Addr) == cell {
+						inc = bo
+					}
+				case *ssa.BinOp:
+					if ph, isPhi := x.X.(*ssa.Phi); isPhi && ph.Comment != "rangeindex" && (x.X == counted || flowsTo(x, counted, 4)) {
+						inc = x
+					}
+				}
+				if inc == nil || inc.Op.String() != "+" {
+					continue
+				}
+				if k, isK := intConstOf(inc.Y); !isK || k != 1 {
+					continue
+				}
+				n++
+				if !underPhyTest(b) {
+					ok = false
+				}
+			}
+		}
+	}
+	h.Check(ok && n > 0, core.FuncName(lst)+"#slots!only-removable", p.InstrPos(limCmp), "only entries that passed the 'is it stored itself' test are counted against the limit", "the batch counter is advanced for entries the metabase will refuse: "+badWhy)
 }
 
 // checkOnlyStopReturns: in a worker loop function every return is reached only through the stop-channel case of a select.
